@@ -182,6 +182,11 @@ def _verify_cases(draw, kinds=("root", "root-ok", "delegation", "delegation-ok",
         U = GM.sign_envelope(GM.wrap(payload), seeds[:draw(st.integers(thr - 1, len(seeds)))], False)
         for k, v in draw(st.lists(st.tuples(G.strings, GE.JUNK_VALUES), max_size=2)):
             U["signatures"].setdefault(k, v)
+        if draw(st.integers(0, 3)) == 0:
+            # somebody else's entry of the OTHER kind (well-formed OpenPGP-shaped, under a key or a name that is not ours)
+            U["signatures"].setdefault(draw(st.one_of(keys.ghost_keys, st.just("colleague"))),
+                                       draw(st.sampled_from([{"other_headers": "04001608", "signature": "cd" * 64},
+                                                             {"other_headers": "04", "signature": "ab" * 64, "see_also": "ef" * 20}])))
         return {"kind": kind, "T": T, "U": U, "flaw": "type=" + ("key_mgr" if utype == "key_mgr" else "other")}
     if kind == "root":
         c = draw(C03.root_pairs())
